@@ -55,7 +55,8 @@ Definition placeholder_of (item : json) : res (option json) :=
   | _ => Ok None
   end.
 
-Definition format_path (parent key : string) : string := parent ++ "/" ++ key.
+(* utils.rs::format_path: the key is escaped as a JSON pointer reference token (repair F17b) *)
+Definition format_path (parent key : string) : string := parent ++ "/" ++ esc_tok key.
 
 (* decimal rendering of an index is a parameter of the prototype *)
 Section Restore.
